@@ -260,8 +260,10 @@ def check_channel(ctx, case, segs, mode, ch, Rimg, R, n, bounds, tkind, rng, cut
     #      must not change what later windows, slices and indices return
     if mode == 'lazy' and n and tkind == 'num':
         try:
-            for full in (ch.read_data(), ch[:]):
-                if C.img_equal(C.image(full), Rimg) and isinstance(full, np.ndarray) and full.dtype.kind in 'iuf' and full.flags.writeable:
+            lo_, hi_ = (n // 3, max(n // 3 + 1, 2 * n // 3))
+            for full, want_ in ((ch.read_data(), Rimg), (ch[:], Rimg), (ch[lo_:hi_], C.image_slice(Rimg, slice(lo_, hi_))),
+                                (ch.read_data(lo_, hi_ - lo_), C.image_slice(Rimg, slice(lo_, hi_)))):
+                if C.img_equal(C.image(full), want_) and isinstance(full, np.ndarray) and full.dtype.kind in 'iuf' and full.flags.writeable:
                     full[...] = 0
                     ctx.count('full_reads_overwritten_by_caller')
         except Exception as ex:
